@@ -246,11 +246,11 @@ def retxTick (threshold max : Nat) (t : Tcb) : Tcb × RetxAction :=
     else ({ t2 with sndNxt := t2.sndUna }, .none)
 
 /-- The SYN / SYN-ACK re-emitted by `emit_handshake` (tcp.rs:1183-1212). -/
-def handshakeSeg (t : Tcb) (srcPort : Nat) : Seg :=
+def handshakeSeg (t : Tcb) (srcPort win : Nat) : Seg :=
   let synAck := t.state == .synReceived
   { srcPort := srcPort, dstPort := t.peer.port, seq := wsub t.sndUna 1,
     ack := if synAck then t.rcvNxt else 0,
-    flags := { syn := true, ack := synAck }, window := defaultWindow, payload := [] }
+    flags := { syn := true, ack := synAck }, window := win, payload := [] }
 
 end Tcb
 end TV.NetTcp
